@@ -131,6 +131,11 @@ package html
 // a tag name ends at ASCII white space, '>' or '/>' (also at the end of input and at a template delimiter)
 //@ pred htmlNameEnd(c, c1) := c == ' ' || c == '\t' || c == '\n' || c == '\r' || c == '\f' || c == '>' || (c == '/' && c1 == '>')
 //@ func Lexer.shiftStartTag
+// the elements whose content is raw text: when the tag name hashes to one of them, the lexer is armed with exactly that tag
+//@   snapshot h0 = h#1
+//@   ensures[F,C09,local] @raw-text-elements: result0 == StartTagToken && (h0 == Textarea || h0 == Title || h0 == Style || h0 == Xmp || h0 == Iframe || h0 == Script || h0 == Plaintext) ==> l.rawTag == h0
+//@   ensures[F,C09,local] @foreign-elements: (h0 == Svg ==> result0 == SVGToken || result0 == ErrorToken) && (h0 == Math ==> result0 == MathToken || result0 == ErrorToken)
+//@   ensures[F,C09,local] @not-raw: result0 == StartTagToken && !(h0 == Textarea || h0 == Title || h0 == Style || h0 == Xmp || h0 == Iframe || h0 == Script || h0 == Plaintext) ==> l.rawTag == old(l.rawTag)
 //@   requires[F] @at-name: l.r.pos == l.r.start + 1
 //@   ensures[F,C09,local] @name-extent: result0 == StartTagToken ==> forall(k, old(l.r.pos), old(l.r.pos) + len(l.text), !htmlNameEnd(old(l.r.buf[k]), old(l.r.buf[k+1])))
 //@   loop 1 invariant[F] @name-scan: forall(k, old(l.r.pos), l.r.pos, !htmlNameEnd(l.r.buf[k], l.r.buf[k+1])) && sameBytesExcept(0, 0) && l.r.start == old(l.r.start)
@@ -246,6 +251,12 @@ package html
 //@   ensures[F,C17] @unquoted-safe: sameSlice(result, b) ==> forall(k, 0, len(b), !needsQuote(b[k]))
 //@   requires[F] disjoint(deref(buf), singleQuoteEntityBytes) && disjoint(deref(buf), doubleQuoteEntityBytes)
 //@   ensures[S]  len(result) >= len(b)
+// the quote that costs fewer escapes is used; on a tie the original quote is kept if it was a single quote, else '"'
+//@   ensures[F,C17] @quote-choice: !sameSlice(result, b) && !(old(cnt(b, '\'', 0, len(b))) == 0 && origQuote == '\'') && !(old(cnt(b, '"', 0, len(b))) == 0 && origQuote == '"') ==>
+//@        (old(cnt(b, '\'', 0, len(b))) > old(cnt(b, '"', 0, len(b))) ==> result[0] == '"') && (old(cnt(b, '\'', 0, len(b))) < old(cnt(b, '"', 0, len(b))) ==> result[0] == '\'') &&
+//@        (old(cnt(b, '\'', 0, len(b))) == old(cnt(b, '"', 0, len(b))) ==> result[0] == ite(origQuote == '\'', '\'', '"'))
+//@   ensures[F,C17] @quote-kept: !sameSlice(result, b) && ((old(cnt(b, '\'', 0, len(b))) == 0 && origQuote == '\'') || (old(cnt(b, '"', 0, len(b))) == 0 && origQuote == '"')) ==> result[0] == origQuote && len(result) == len(b) + 2
+//@   ensures[F,C17] @length: !sameSlice(result, b) && (result[0] == '"' || result[0] == '\'') ==> len(result) == len(b) + 2 + 4 * ite(result[0] == '"', old(cnt(b, '"', 0, len(b))), old(cnt(b, '\'', 0, len(b))))
 //@   ensures[F,C17] @no-raw-quote: !sameSlice(result, b) ==> forall(k, 1, len(result)-1, result[k] != result[0])
 //@   ensures[F,C17] @unquoted: sameSlice(result, b) ==> forall(k, 0, len(b), !charTable[b[k]]) && (!mustQuote || origQuote == 0)
 //@   ensures[F,C17] @quoted: !sameSlice(result, b) ==> len(result) >= 2 && result[0] == result[len(result)-1] && (result[0] == '"' || result[0] == '\'' || result[0] == origQuote)
